@@ -13,7 +13,7 @@ mkdir -p $OUT
 cp $SRC/patch.diff $SRC/demo.py $OUT/ 2>/dev/null
 [ -f $SRC/NOTES.md ] && cp $SRC/NOTES.md $OUT/NOTES.md
 git -C /repo worktree remove --force $WT 2>/dev/null
-git -C /repo worktree add -q --detach $WT ${BASE:-HEAD} || exit 2
+[ -z "${BASE:-}" ] && BASE=HEAD; git -C /repo worktree add -q --detach $WT $BASE || exit 2
 HEAD=$(git -C /repo rev-parse --short ${BASE:-HEAD})
 # --3way first: it merges against the blob the patch was made from, so a hunk cannot land
 # on a look-alike context elsewhere in a file that has changed since
